@@ -35,6 +35,25 @@ WRAP = {"lfb": torch.storage._load_from_bytes, "ploads": pickle.loads, "cloads":
 ADDS = {"none": [], "loaders": ["pickle.loads", "_pickle.loads"], "loaders+other": ["pickle.loads", "_pickle.loads", "verif_sink.other"]}
 
 
+def _uninstalled():
+    """an allow-listed (module, name) whose top-level package cannot be imported here (chosen from the tree's own table)"""
+    import importlib.util
+    for m in sorted(BASE0):
+        top = m.split(".")[0]
+        try:
+            if top.startswith("_") or importlib.util.find_spec(top) is not None:
+                continue
+        except Exception:  # noqa: BLE001
+            continue
+        names = [n for n in BASE0[m] if isinstance(n, str) and n.isidentifier()]
+        if names and all(p.isidentifier() for p in m.split(".")):
+            return m, names[0]
+    return None
+
+
+UNINSTALLED = _uninstalled()
+
+
 class R:
     """object whose unpickling calls f(*args)"""
 
@@ -109,6 +128,12 @@ def main():
             cm.__enter__()
         elif c.get("layer") == "ml+armed":
             fickling.always_check_safety()
+        if c.get("prelude") == "failed_allowed" and UNINSTALLED:
+            m, n = UNINSTALLED
+            try:        # an allow-listed global of a package that is not installed: the load ends with ImportError
+                pickle.loads(b"c" + m.encode() + b"\n" + n.encode() + b"\n.")
+            except BaseException:  # noqa: BLE001
+                pass
         ON[0] = True
         exc = ""
         try:
